@@ -10,7 +10,7 @@ InclMarked == [start : 0..MaxVal, length : 0..MaxVal, marker : {TRUE}, moff : {0
 RangeSet(e) == PlainSet \cup (IF WithMarkers THEN (IF e THEN ExclMarkers ELSE InclMarked) ELSE {})
 Init == /\ len \in 0..MaxLen
         /\ excl \in BOOLEAN
-        /\ rs \in UNION {[1..n -> RangeSet(excl)] : n \in 0..MaxRanges}
+        /\ \E n \in 0..MaxRanges : rs \in [1..n -> RangeSet(excl)]     \* (not a UNION of function sets: TLC would materialise it)
 Next == UNCHANGED vars
 Spec == Init /\ [][Next]_vars
 \* property layer vs mirror layer on the inputs where the statement is unambiguous
